@@ -28,15 +28,15 @@ DEADLINE = {"quick": 1500, "thorough": 4 * 3600}
 ENTRY = ["text", "xml", "pages"]
 
 TIERS = {
-    "quick": {"seeds": list(S.SEEDS), "entries": ["text", "xml"], "payload_seeds": ["xref", "crypt", "pages", "incr", "ttf", "aes128"], "payload_replace": [], "trunc_seeds": ["xref", "incr"], "payload_replace_seeds": {"ttf": [0x00, 0xFF]}},
+    "quick": {"seeds": list(S.SEEDS), "entries": ["text", "xml"], "payload_seeds": ["xref", "crypt", "pages", "incr", "ttf", "aes128", "filters"], "payload_replace": [], "trunc_seeds": ["xref", "incr"], "payload_replace_seeds": {"ttf": [0x00, 0xFF], "filters": [0x00, 0xFF, 0x7E]}},
     "thorough": {"seeds": list(S.SEEDS), "entries": ENTRY, "payload_seeds": list(S.SEEDS), "payload_replace": [0x00, 0xFF, 0x3C, 0x28], "trunc_seeds": list(S.SEEDS), "payload_replace_seeds": {}},
 }
 
 META = {
     "rule": (
-        "seeds: 10 generated documents (page tree+labels; simple fonts; composite fonts; xref/object streams; graphics/images/"
+        "seeds: 11 generated documents (page tree+labels; simple fonts; composite fonts; xref/object streams; graphics/images/"
         "colour spaces/inline image/nested forms; RC4, AES-128 and AES-256 (R6) encryption; incremental update with /Prev; embedded TrueType "
-        "programs with cmap formats 4 and 12). The generated object stream and "
+        "programs with cmap formats 4 and 12; content streams through LZW, RunLength, ASCII85, ASCIIHex, Flate+PNG/TIFF predictors and a filter chain). The generated object stream and "
         "cross-reference stream (dictionary entries and payload) and every stream's /Length are fault sites too; /Prev additionally "
         "gets the value 'offset of its own section'. structural faults: every dictionary entry, array element, stream-dictionary "
         "entry, top-level object and trailer entry x {null,int,real,name,string,array,dict,boolean,ref->self,ref->missing,"
@@ -49,8 +49,8 @@ META = {
         "transitions = fault applications, traces = executions of an entry point on a damaged document, each judged."
     ),
     "bound": {
-        "quick": "structural faults on all 10 seeds x {extract_text, extract_text_to_fp(xml)}; payload truncation at every length on 6 seeds (xref-stream and TrueType payloads also 00/FF at every position); file truncation at every byte of 2 seeds",
-        "thorough": "structural + payload (truncate, empty, 4 byte values at every position) + every-byte truncation on all 10 seeds x 3 entry points",
+        "quick": "structural faults on all 11 seeds x {extract_text, extract_text_to_fp(xml)}; payload truncation at every length on 7 seeds (xref-stream, TrueType and filtered-content payloads also 00/FF at every position); file truncation at every byte of 2 seeds",
+        "thorough": "structural + payload (truncate, empty, 4 byte values at every position) + every-byte truncation on all 11 seeds x 3 entry points",
     },
     "assumptions": [
         "single faults only; fault values are one representative per PDF type",
